@@ -112,8 +112,8 @@ func coerceInt(value interface{}) interface{} {
 		}
 		return coerceInt(*value)
 	case float32:
-		if value < float32(math.MinInt32) || value > float32(math.MaxInt32) {
-			return nil
+		if value != value || value < float32(math.MinInt32) || value > float32(math.MaxInt32) {
+			return nil // NaN or out of range
 		}
 		return int(value)
 	case *float32:
@@ -122,8 +122,8 @@ func coerceInt(value interface{}) interface{} {
 		}
 		return coerceInt(*value)
 	case float64:
-		if value < float64(math.MinInt32) || value > float64(math.MaxInt32) {
-			return nil
+		if value != value || value < float64(math.MinInt32) || value > float64(math.MaxInt32) {
+			return nil // NaN or out of range
 		}
 		return int(value)
 	case *float64:
